@@ -70,9 +70,11 @@ def gen_literal(ch):
     other = "'" if q == '"' else '"'
     parts = []
     for _ in range(ch.int(0, 4)):
-        k = ch.weighted([(3, 'text'), (2, 'embed'), (1, 'hash'), (1, 'other'), (1, 'dollar')])
+        k = ch.weighted([(3, 'text'), (2, 'embed'), (1, 'hash'), (1, 'other'), (1, 'dollar'), (1, 'newline')])
         if k == 'text':
             parts.append(''.join(ch.choice('abc xyz_=+0123') for _ in range(ch.int(1, 5))))
+        elif k == 'newline':
+            parts.append('\n')        # a literal that runs over a line end (a text block): still one literal
         elif k == 'embed':
             parts.append('${' + ch.choice(EXPRS[:11]) + '}')
         elif k == 'hash':
@@ -133,7 +135,8 @@ def check_script(case):
     inside = any(k in ('literal', 'comment') and '${' in t for k, t in case.fragments)
     repeat = len(exprs) != len(set(exprs))
     out.nontrivial = (inside and 'embed' in kinds) or repeat
-    out.classes = ['script'] + (['embed_in_literal_or_comment'] if inside else []) + (['repeated_expression'] if repeat else []) + \
+    out.classes = ['script'] + (['embed_in_literal_or_comment'] if inside else []) + \
+                  (['literal_over_a_line_end'] if any(k == 'literal' and '\n' in t for k, t in case.fragments) else []) + (['repeated_expression'] if repeat else []) + \
                   (['padded_expression'] if any(t != t.strip() for k, t in case.fragments if k == 'embed') else [])
     want, wsubs = case.expected()
     ref, rsubs, status = scriptref.substitute(case.script)
